@@ -321,3 +321,147 @@ def masked_selection(run, repo, f, kernel_names, rule='R13.masksel'):
                 run.check(ok, rule, f, c, 'with a qubit mask the kernel must receive exactly the masked qubits\' (x,z) columns self.gs[:, repeat(mask, 2)]; '
                           '%s (a contiguous block or any other selection acts on the wrong qubits for masks with gaps)' % why)
     return n
+
+
+# --------------------------------------------------------------------------- row permutations by execution
+class _Vec:
+    """A row-label vector for executing map_to_state / state_to_map on labels: slices, index vectors, element and slice
+    stores, elementwise integer arithmetic (for index vectors)."""
+    def __init__(self, items):
+        self.v = list(items)
+
+    def __len__(self):
+        return len(self.v)
+
+    def _bin(self, o, f):
+        if isinstance(o, _Vec):
+            return _Vec(f(a, b) for a, b in zip(self.v, o.v))
+        return _Vec(f(a, o) for a in self.v)
+
+    def __add__(self, o):
+        return self._bin(o, lambda a, b: a + b)
+    __radd__ = __add__
+
+    def __mul__(self, o):
+        return self._bin(o, lambda a, b: a * b)
+    __rmul__ = __mul__
+
+    def __sub__(self, o):
+        return self._bin(o, lambda a, b: a - b)
+
+    def __getitem__(self, i):
+        if isinstance(i, _Vec):
+            return _Vec(self.v[k] for k in i.v)
+        if isinstance(i, slice):
+            return _Vec(self.v[i])
+        if isinstance(i, tuple):          # [rows, ...] : only the row index matters for labels
+            return self[i[0]]
+        return self.v[i]
+
+    def __setitem__(self, i, val):
+        if isinstance(i, _Vec):
+            vals = val.v if isinstance(val, _Vec) else [val] * len(i.v)
+            for k, x in zip(i.v, vals):
+                self.v[k] = x
+        elif isinstance(i, slice):
+            idx = range(*i.indices(len(self.v)))
+            vals = val.v if isinstance(val, _Vec) else [val] * len(idx)
+            if len(vals) != len(idx):
+                raise ValueError('shape mismatch in slice store')
+            for k, x in zip(idx, vals):
+                self.v[k] = x
+        else:
+            self.v[i] = val
+
+    def __eq__(self, o):
+        return isinstance(o, _Vec) and self.v == o.v
+
+    def __repr__(self):
+        return repr(self.v)
+
+
+def permutation_exec(f, N):
+    """Execute a conversion kernel f(gs_in, ps_in) on label vectors of 2N rows with the checker's interpreter; returns
+    (gs_out labels, ps_out labels) or raises Undecidable.  Reads loops, slices with any bounds, index vectors built with
+    arange, concatenation and stack+reshape interleaving."""
+    from .. import mini
+    gname, pname = f.posparams[0], f.posparams[1]
+    env = {gname: _Vec('g%d' % i for i in range(2 * N)), pname: _Vec('p%d' % i for i in range(2 * N))}
+
+    def sl(node, rec):
+        if isinstance(node, ast.Slice):
+            return slice(rec(node.lower) if node.lower is not None else None, rec(node.upper) if node.upper is not None else None,
+                         rec(node.step) if node.step is not None else None)
+        if isinstance(node, ast.Tuple):
+            return tuple(sl(e, rec) for e in node.elts)
+        if isinstance(node, ast.Constant) and node.value is Ellipsis:
+            return Ellipsis
+        return rec(node)
+
+    def sub(nd, env_, rec):
+        base = rec(nd.value)
+        try:
+            return base[sl(nd.slice, rec)]
+        except (TypeError, IndexError, KeyError) as e:
+            raise Undecidable('subscript %s: %s' % (norm(nd), e))
+
+    def attr(nd, env_, rec):
+        if nd.attr == 'shape':
+            v = rec(nd.value)
+            if isinstance(v, _Vec):
+                return (len(v), 2 * N) if norm(nd.value) == gname or norm(nd.value).startswith('g') else (len(v),)
+        if norm(nd.value) in ('numpy', 'np', 'torch'):
+            return ('lib', nd.attr)
+        raise Undecidable('attribute ' + norm(nd))
+
+    def call(nd, env_, rec):
+        fn = nd.func
+        last = norm(fn).split('.')[-1]
+        args = [rec(a) for a in nd.args]
+        if last in ('empty_like', 'zeros_like') and args and isinstance(args[0], _Vec):
+            return _Vec([None] * len(args[0]))
+        if last in ('empty', 'zeros') and args:
+            n = args[0][0] if isinstance(args[0], tuple) else args[0]
+            return _Vec([None] * n)
+        if last == 'arange':
+            return _Vec(range(*args))
+        if last in ('cat', 'concatenate', 'concat', 'hstack', 'vstack') and args and isinstance(args[0], tuple):
+            out = []
+            for part in args[0]:
+                out.extend(part.v)
+            return _Vec(out)
+        if last == 'stack' and args and isinstance(args[0], tuple) and len(args[0]) == 2:
+            dim = args[1] if len(args) > 1 else next((rec(k.value) for k in nd.keywords if k.arg in ('dim', 'axis')), 0)
+            a, b = args[0]
+            if dim == 1:
+                return ('stack1', a, b)
+            raise Undecidable('stack dim')
+        if last in ('reshape', 'view') and isinstance(fn, ast.Attribute):
+            base = rec(fn.value)
+            if isinstance(base, tuple) and base and base[0] == 'stack1':
+                out = []
+                for x, y in zip(base[1].v, base[2].v):
+                    out += [x, y]
+                return _Vec(out)
+            if isinstance(base, _Vec):
+                return base
+        if last in ('copy', 'clone', 'long', 'to', 'astype', 'contiguous') and isinstance(fn, ast.Attribute):
+            return rec(fn.value)
+        raise Undecidable('call ' + norm(fn))
+
+    def on_store(t, v, env_, value):
+        if isinstance(t, ast.Subscript) and isinstance(t.value, ast.Name) and isinstance(env_.get(t.value.id), _Vec):
+            if v is Undecidable:
+                raise Undecidable('stored value')
+
+            def rec(n):
+                return value(n)
+            try:
+                env_[t.value.id][sl(t.slice, rec)] = v
+            except (TypeError, IndexError, ValueError) as e:
+                raise Undecidable('store %s: %s' % (norm(t), e))
+    out = []
+    mini.execute(f.node, env, sub=sub, attr=attr, call=call, on_store=on_store, result=out)
+    if not out or not (isinstance(out[0], tuple) and len(out[0]) == 2 and all(isinstance(x, _Vec) for x in out[0])):
+        raise Undecidable('the kernel does not return (strings, phases)')
+    return out[0][0].v, out[0][1].v
